@@ -318,6 +318,22 @@ def run(case, s, dt, cond_spec=None, kind=None, steps=None):
     return call(pv.non_ideal_non_isothermal_process, **kw)
 
 
+def lookahead_borderline(model, area, dt):
+    """True when, in a RETURNED model, some state - including the look-ahead state that follows the last reported step and is popped
+    without validation - sits on (or beyond) the validity boundary to rounding: a remaining amount <= 1e-9 of the initial feed, or a
+    run-away self-cooling below 150 K.  A twin that raises on such a trajectory differs only in which rounding trips a validator first."""
+    if min(float(t_) for t_ in model.feed_temperature) < 150.0:
+        return True
+    for k in range(len(model.feed_mass)):
+        mk, wk = float(model.feed_mass[k]), model.feed_compositions[k].p
+        d1 = float(model.partial_fluxes[k][0]) * area * dt
+        d2 = float(model.partial_fluxes[k][1]) * area * dt
+        rem = (mk * wk - d1, mk * (1 - wk) - d2, mk - d1 - d2)
+        if any(r <= 1e-9 * float(model.feed_mass[0]) for r in rem):
+            return True
+    return False
+
+
 _poisoned = False
 
 
